@@ -209,6 +209,11 @@ func (vm *Vm) runErrCheck(ctx context.Context, b []byte, err error) ([]byte, err
 	if !v {
 		return b, err
 	}
+	location, _ := vm.st.Where()
+	if location == "_catch" {
+		// failing inside the catch node: do not send it to itself
+		return b, err
+	}
 
 	b = NewLine(nil, MOVE, []string{"_catch"}, nil, nil)
 	return b, nil
